@@ -85,6 +85,9 @@ def run(ctx):
     # shows when the schedule lets a writer purge a generation before a later one runs)
     cases_s, _ = owsim.graphs(ctx, "OwSimData_scale.cfg")
     owsim.schedule_replay(ctx, cases_s, binary, 8 if ctx.quick else 80, 3 if ctx.quick else 10, seed_offset=3000, label="b3_scale")
+    # (4) the hand-over to a writer child process (-outputs Model=file): OwSimSplit.tla, TraceOwSimSplit.tla
+    owsim.split_design(ctx)
+    owsim.split_replay(ctx, cases3, binary, 10 if ctx.quick else 120)
     ctx.assumptions += ["B3: schedules are drawn by TLC's simulation mode from the eager behaviours of OwSim (hook-less continuation steps first); a schedule the goroutines cannot follow is counted, not judged",
                         "S1: HDF5 library is harness/fakehdf5", "protocol model: <=4 generations (thorough 5), 2 model types, links between every pair of generations",
                         "B1 graphs: all graphs with <=2 model types of {Input,Sum,FixedPartition,Muskingum}, <=2 generations, <=2 nodes per batch, <=2 links, T=3; a seeded sample is executed",
